@@ -117,11 +117,6 @@ theorem canon_complete {t : Table V} {docids : List Int} {rev : Bool}
     rw [List.take_of_length_le (by rw [hperm.length_eq]; omega)]
     exact hdsrt
 
-/-- value order on optional values (only ever used on present values) -/
-def optLe (rev : Bool) : Option V → Option V → Bool
-  | some x, some y => if rev then decide (y ≤ x) else decide (x ≤ y)
-  | _, _ => true
-
 /-- two answers to the same request show the same sequence of values and agree on raising -/
 theorem canon_agree (o : OrdLaws V) {t : Table V} {docids : List Int} {rev : Bool}
     {limit : Option Nat} {raiseU : Bool} {g1 g2 : Gen} (c1 : Canon t docids rev limit raiseU g1)
@@ -314,6 +309,24 @@ theorem rev_nil_of_numDocs_zero {s : State V} {t : Table V} (h : Inv s t) (hn : 
   have := h.num
   rw [hn] at this
   exact List.length_eq_zero_iff.mp (by omega)
+
+theorem nonEmptyIndex_iff {t : Table V} (hwf : AMap.WF t) :
+    nonEmptyIndex t = true ↔ ∃ d v, valueOf t d = some v := by
+  unfold nonEmptyIndex
+  rw [List.any_eq_true]
+  constructor
+  · rintro ⟨⟨d, x⟩, hp, hx⟩
+    cases x with
+    | none => cases hx
+    | some v => exact ⟨d, v, by unfold valueOf; rw [AMap.get_of_mem hwf hp]; rfl⟩
+  · rintro ⟨d, v, hv⟩
+    unfold valueOf at hv
+    cases hg : AMap.get t d with
+    | none => rw [hg] at hv; cases hv
+    | some x =>
+      rw [hg] at hv
+      simp only [Option.bind_some, id] at hv
+      exact ⟨(d, x), AMap.mem_of_get hg, by rw [hv]; rfl⟩
 
 theorem numDocs_zero_iff {s : State V} {t : Table V} (h : Inv s t) :
     s.numDocs = 0 ↔ ∀ d, valueOf t d = none := by
